@@ -1178,7 +1178,8 @@ class QuantityMeta(ClassWithDefinitionMeta):
         if not symbol:
             raise ValueError("'symbol' must not be an empty string.")
         if isinstance(define_as, Quantity):
-            if not isinstance(define_as, cls):
+            # (a sub-class of `cls` is a quantity class of its own)
+            if define_as.__class__ is not cls:
                 raise TypeError(f"Can't use an instance of "
                                 f"'{define_as.__class__.__name__}' as "
                                 f"equivalent of a '{cls.__name__}' unit.")
